@@ -18,6 +18,11 @@ prove the history-level clauses over the *unguarded* semantics (`World.execRaw` 
 `impossible.*` checks, any account — the contract itself, real tokens — may send any transfer) without
 any environment hypothesis; the per-handler clauses (`cw20_transfer_gate`, `payout_gas_limit_*`) are
 about the handlers, which are the same in both semantics.
+
+"Tokens already in a channel remain redeemable" is the invariant `InChannelPayable` (`in_channel_payable`
+from `instantiate`, `in_channel_payable_inv` from any state satisfying it); it fails on the upgrade path from
+the pre-allow-list layout when the migrate message sets no default gas limit
+(`legacy_upgrade_strands_cw20`, `redeemable_after_upgrade_partial`).
 -/
 namespace CwPlus.Props.C18
 open CwPlus CwPlus.Ics20
@@ -833,5 +838,425 @@ example : (w0.execRaw b0 (.hook "T1" [] ⟨true, "mallory"⟩ 5 (some ⟨"channe
     (w0.exec b0 (.hook "T1" [] ⟨true, "mallory"⟩ 5 (some ⟨"channel-0", "bob", none, none⟩))).isOk = false ∧
     (runRaw w0 [(b0, .hook "T1" [] ⟨true, "mallory"⟩ 5 (some ⟨"channel-0", "bob", none, none⟩))]).st.allow = w0.st.allow := by
   decide
+
+/-! ## "Tokens already in a channel remain redeemable" as an invariant of histories
+
+`redeemable_stays` says: a gas check that passes keeps passing.  What the clause needs in addition is the
+link from *being in a channel* to the gas check passing.  `Payable s t`: token `t` is on the allow list,
+or the (current-layout) config has a default gas limit — exactly when `check_gas_limit` accepts the token
+(`payable_iff_gas`).  `InChannelPayable s`: every cw20 token with an entry in the channel books is payable.
+Every transaction preserves it (a new cw20 key is created only by a transfer, which passed the gate;
+`Payable` is monotone), it holds after `instantiate`, hence on every history of a contract deployed with
+the current code (`in_channel_payable`).  It does **not** hold on the upgrade path from the
+pre-allow-list layout: `legacy_upgrade_strands_cw20`. -/
+
+/-- `check_gas_limit` accepts the cw20 token `t`: it is on the allow list, or a default gas limit is
+configured (and the config has the current layout). -/
+def Payable (s : State) (t : Addr) : Prop :=
+  (s.allow.get? t).isSome ∨ (s.v1gov = none ∧ s.config.defaultGasLimit.isSome)
+
+/-- `Payable` is exactly "the gas check of the token passes" (for an address that validates), and the
+limit attached is then `expectedGas`. -/
+theorem payable_iff_gas (s : State) (t : Addr) :
+    Payable s t ↔ checkGasLimit s (.cw20 t) true = .ok (expectedGas s (.cw20 t)) := by
+  constructor
+  · intro h
+    cases hg : s.allow.get? t with
+    | some g => simp [checkGasLimit, expectedGas, hg, check, bind, Except.bind, pure, Except.pure]
+    | none =>
+      rcases h with h | ⟨hv, hd⟩
+      · simp [hg] at h
+      · obtain ⟨b, hb⟩ := Option.isSome_iff_exists.mp hd
+        simp [checkGasLimit, expectedGas, hg, loadConfig, hv, hb, check, bind, Except.bind, pure, Except.pure]
+  · intro h
+    obtain ⟨_, hc⟩ := checkGasLimit_spec h
+    rcases (hc t rfl).2 with h1 | ⟨_, hv, b, hb, _⟩
+    · exact Or.inl h1
+    · exact Or.inr ⟨hv, by simp [hb]⟩
+
+/-- `Payable` is monotone along every transaction. -/
+theorem step_payable {w : World} {blk : Block} {op : Op} {t : Addr} (h : Payable w.st t) :
+    Payable (w.step blk op).st t := by
+  have h1 := (payable_iff_gas _ _).mp h
+  obtain ⟨g', h2⟩ := step_redeemable (blk := blk) (op := op) h1
+  have := (checkGasLimit_spec h2).1
+  subst this
+  exact (payable_iff_gas _ _).mpr h2
+
+theorem run_payable (w : World) (ops : List (Block × Op)) {t : Addr} (h : Payable w.st t) : Payable (run w ops).st t := by
+  induction ops generalizing w with
+  | nil => exact h
+  | cons op rest ih => exact ih (w.step op.1 op.2) (step_payable h)
+
+theorem reduce_keys {m m' : ChanMap} {c : String} {d : Denom} {amt : Nat} (h : reduceBalance m c d amt = .ok m') :
+    ∀ k ∈ AMap.keys m', k ∈ AMap.keys m := by
+  obtain ⟨cs, hg, _, rfl, _, _⟩ := reduceBalance_spec h
+  intro k hk
+  rcases AMap.mem_keys_set.mp hk with hk | rfl
+  · exact hk
+  · exact mem_keys_of_get? hg
+
+theorem increase_keys {m m' : ChanMap} {c : String} {d : Denom} {amt : Nat} (h : increaseBalance m c d amt = .ok m') :
+    ∀ k ∈ AMap.keys m', k ∈ AMap.keys m ∨ k = (c, d) := by
+  simp [increaseBalance] at h
+  obtain ⟨_, _, rfl⟩ := h
+  intro k hk
+  exact AMap.mem_keys_set.mp hk
+
+/-- The reconciliation loop of `v2::update_balances` adds no key. -/
+theorem updateDenoms_keys_sub (ch : String) (hold : Denom → Option Nat) (es : List (Key × ChanState)) (m m' : ChanMap)
+    (h : updateDenoms ch hold es m = .ok m') : ∀ k ∈ AMap.keys m', k ∈ AMap.keys m ∨ k ∈ es.map (·.1) := by
+  induction es generalizing m with
+  | nil => simp [updateDenoms] at h; subst h; intro k hk; exact Or.inl hk
+  | cons e rest ih =>
+    obtain ⟨⟨c, d⟩, cs⟩ := e
+    have lift : ∀ {m1 : ChanMap}, updateDenoms ch hold rest m1 = .ok m' → (∀ k ∈ AMap.keys m1, k ∈ AMap.keys m ∨ k = (c, d)) →
+        ∀ k ∈ AMap.keys m', k ∈ AMap.keys m ∨ k ∈ (((c, d), cs) :: rest).map (·.1) := by
+      intro m1 h1 hsub k hk
+      rcases ih m1 h1 k hk with h2 | h2
+      · rcases hsub k h2 with h3 | rfl
+        · exact Or.inl h3
+        · exact Or.inr (by simp)
+      · exact Or.inr (by simp only [List.map_cons, List.mem_cons]; exact Or.inr h2)
+    unfold updateDenoms at h
+    split at h
+    · split at h
+      · simp at h
+      · simp at h
+        obtain ⟨_, h⟩ := h
+        split at h
+        · exact lift h (fun k hk => Or.inl hk)
+        · simp at h
+          obtain ⟨_, _, h⟩ := h
+          exact lift h (fun k hk => AMap.mem_keys_set.mp hk)
+    · exact lift h (fun k hk => Or.inl hk)
+
+/-- `migrate` (any stored version) adds no key to the channel books. -/
+theorem migrate_keys_sub {s s' : State} {gas : Option Nat} {hold : Denom → Option Nat}
+    (h : migrate s gas hold = .ok s') : ∀ k ∈ AMap.keys s'.chan, k ∈ AMap.keys s.chan := by
+  obtain ⟨_, hb⟩ := migrate_books h
+  rcases hb with ⟨_, e⟩ | ⟨_, s1, s2, e1, _, hu, e2⟩
+  · rw [e]; exact fun _ hk => hk
+  · rcases updateBalances_cases hu with ⟨_, rfl⟩ | ⟨ch, m, _, hm, rfl⟩
+    · rw [e2, e1]; exact fun _ hk => hk
+    · intro k hk
+      rw [e2] at hk
+      rcases updateDenoms_keys_sub ch hold s1.chan s1.chan m hm k hk with h1 | h1
+      · rw [← e1]; exact h1
+      · rw [← e1]; exact h1
+
+/-- A cw20 key of the books after a transaction was there before, or was created by a transfer of that
+token — which passed the gate, so the token is payable. -/
+theorem exec_new_cw20_key {w w' : World} {blk : Block} {op : Op} {o : Outcome} (h : w.exec blk op = .ok (w', o))
+    {c : String} {t : Addr} (hk : (c, Denom.cw20 t) ∈ AMap.keys w'.st.chan) :
+    (c, Denom.cw20 t) ∈ AMap.keys w.st.chan ∨ Payable w.st t := by
+  have gate : ∀ {blk msg t' amt snd r}, execTransfer w.st blk msg (.cw20 t') amt snd = .ok r → Payable w.st t' := by
+    intro blk msg t' amt snd r hr
+    obtain ⟨hv, hd⟩ := cw20_transfer_gate hr
+    rcases hd with hd | hd
+    · exact Or.inr ⟨hv, hd⟩
+    · exact Or.inl hd
+  cases op with
+  | connect id v cv ord peer =>
+    rw [(exec_plain_frame h (Or.inl ⟨id, v, cv, ord, peer, rfl⟩)).1] at hk; exact Or.inl hk
+  | chanOpen v cv ord => obtain ⟨rfl, _⟩ := exec_chanOpen h; exact Or.inl hk
+  | chanClose id => exact (exec_chanClose h).elim
+  | allow snd c' gg =>
+    rw [(exec_plain_frame h (Or.inr (Or.inl ⟨snd, c', gg, rfl⟩))).1] at hk; exact Or.inl hk
+  | updateAdmin snd a =>
+    rw [(exec_plain_frame h (Or.inr (Or.inr ⟨snd, a, rfl⟩))).1] at hk; exact Or.inl hk
+  | migrate gg => exact Or.inl (migrate_keys_sub (exec_migrate h) _ hk)
+  | transferNative snd funds msg =>
+    obtain ⟨d, amt, w1, s, out, _, _, _, hs, rfl, rfl⟩ := exec_transferNative_spec h
+    obtain ⟨ch, hinc, rfl, _⟩ := execTransfer_spec hs
+    rcases increase_keys hinc _ hk with h1 | h1
+    · exact Or.inl h1
+    · cases h1
+  | sendCw20 snd token amt msg =>
+    obtain ⟨w1, m, s, out, _, _, _, _, hs, rfl, rfl⟩ := exec_sendCw20_spec h
+    obtain ⟨ch, hinc, rfl, _⟩ := execTransfer_spec hs
+    rcases increase_keys hinc _ hk with h1 | h1
+    · exact Or.inl h1
+    · cases h1; exact Or.inr (gate hs)
+  | hook snd funds sender amt msg =>
+    obtain ⟨m, s, out, _, _, hs, rfl, rfl⟩ := exec_hook_spec h
+    obtain ⟨ch, hinc, rfl, _⟩ := execTransfer_spec hs
+    rcases increase_keys hinc _ hk with h1 | h1
+    · exact Or.inl h1
+    · cases h1; exact Or.inr (gate hs)
+  | recv p rv tv f =>
+    rcases exec_recv_cases h with ⟨_, rfl, _, _⟩ | ⟨s1, sub, hd, _, hc⟩
+    · exact Or.inl hk
+    · obtain ⟨amt, d, ch, _, _, hred, rfl, _⟩ := doReceive_spec hd
+      rcases hc with ⟨hp, _⟩ | ⟨_, _, ra, ch2, hra, hundo, rfl⟩
+      · rw [(payout_frame hp).1] at hk; exact Or.inl (reduce_keys hred _ hk)
+      · simp at hra; subst hra
+        have := undoReduce_reduce_eq hred hundo
+        subst this
+        exact Or.inl hk
+  | ack chan data ackOk sv tv f =>
+    rcases exec_ack_cases h with ⟨_, rfl, _, _⟩ | ⟨_, s1, sub, hf, _, hc⟩
+    · exact Or.inl hk
+    · obtain ⟨p, ch, rfl, hred, rfl, _⟩ := onPacketFailure_spec hf
+      rcases hc with ⟨hp, _⟩ | ⟨_, rfl, _⟩
+      · rw [(payout_frame hp).1] at hk; exact Or.inl (reduce_keys hred _ hk)
+      · exact Or.inl (reduce_keys hred _ hk)
+  | timeout chan data sv tv f =>
+    obtain ⟨s1, sub, hf, _, hc⟩ := exec_timeout_cases h
+    obtain ⟨p, ch, rfl, hred, rfl, _⟩ := onPacketFailure_spec hf
+    rcases hc with ⟨hp, _⟩ | ⟨_, rfl, _⟩
+    · rw [(payout_frame hp).1] at hk; exact Or.inl (reduce_keys hred _ hk)
+    · exact Or.inl (reduce_keys hred _ hk)
+
+/-- Every cw20 token with an entry in the channel books is payable. -/
+def InChannelPayable (s : State) : Prop := ∀ c t, (c, Denom.cw20 t) ∈ AMap.keys s.chan → Payable s t
+
+theorem step_inChannelPayable {w : World} (blk : Block) (op : Op) (hi : InChannelPayable w.st) :
+    InChannelPayable (w.step blk op).st := by
+  intro c t hk
+  cases hx : w.exec blk op with
+  | error e =>
+    have hw : w.step blk op = w := by unfold World.step; rw [hx]
+    rw [hw] at hk ⊢; exact hi c t hk
+  | ok r =>
+    obtain ⟨w', o⟩ := r
+    have hw : w.step blk op = w' := by unfold World.step; rw [hx]
+    rw [hw] at hk
+    rcases exec_new_cw20_key hx hk with h1 | h1
+    · exact step_payable (hi c t h1)
+    · exact step_payable h1
+
+/-- **C18, in_channel_payable (inductive form)**: "tokens already in a channel remain redeemable" from any
+state in which every cw20 token of the books is payable, on every history — whatever the stored version,
+with `migrate`, `Allow`, `UpdateAdmin` by anybody anywhere. -/
+theorem in_channel_payable_inv (w : World) (ops : List (Block × Op)) (hi : InChannelPayable w.st) :
+    InChannelPayable (run w ops).st := by
+  induction ops generalizing w with
+  | nil => exact hi
+  | cons op rest ih => exact ih (w.step op.1 op.2) (step_inChannelPayable op.1 op.2 hi)
+
+/-- **C18, in_channel_payable** (clause "so tokens already in a channel remain redeemable", at full
+strength for contracts deployed with the current code): after an accepted `instantiate` — any initial
+allow list, any default gas limit or none — on every history, every cw20 token that has an entry in the
+channel books (in particular every token with a positive outstanding balance on some channel) is on the
+allow list or covered by a default gas limit, i.e. the gas check of its payout / refund passes, with the
+limit `expectedGas` (its own allow-list limit, else the default). -/
+theorem in_channel_payable {m : InstMsg} {s : State} (hi : instantiate m = .ok s) (w : World) (ops : List (Block × Op))
+    (c : String) (t : Addr) :
+    ((c, Denom.cw20 t) ∈ AMap.keys (run { w with st := s } ops).st.chan ∨
+      0 < outstanding (run { w with st := s } ops).st c (.cw20 t)) →
+    Payable (run { w with st := s } ops).st t ∧
+    checkGasLimit (run { w with st := s } ops).st (.cw20 t) true =
+      .ok (expectedGas (run { w with st := s } ops).st (.cw20 t)) := by
+  intro hk
+  have h0 : InChannelPayable ({ w with st := s } : World).st := by
+    intro c t hk
+    simp [instantiate] at hi
+    obtain ⟨_, allow, _, rfl⟩ := hi
+    simp [AMap.keys] at hk
+  have hinv := in_channel_payable_inv { w with st := s } ops h0
+  have hmem : (c, Denom.cw20 t) ∈ AMap.keys (run { w with st := s } ops).st.chan := by
+    rcases hk with hk | hk
+    · exact hk
+    · unfold outstanding at hk
+      cases hg : (run { w with st := s } ops).st.chan.get? (c, .cw20 t) with
+      | none => simp [hg] at hk
+      | some cs => exact mem_keys_of_get? hg
+  have hp := hinv c t hmem
+  exact ⟨hp, (payable_iff_gas _ _).mp hp⟩
+
+/-- What a migration with a default gas limit establishes: afterwards the config has the current layout
+and that default, so *every* cw20 token is payable. -/
+theorem migrate_default_payable {s s' : State} {g : Nat} {hold : Denom → Option Nat}
+    (h : migrate s (some g) hold = .ok s') : ∀ t, Payable s' t := by
+  simp [migrate] at h
+  obtain ⟨_, _, _, s1, _, s2, _, cfg, hc, rfl⟩ := h
+  obtain ⟨hv, _⟩ := loadConfig_ok hc
+  intro t
+  right
+  split <;> exact ⟨hv, rfl⟩
+
+/-- **C18, redeemable_after_upgrade_partial** — the part of "tokens already in a channel remain
+redeemable" that holds on the upgrade path from a release ≤ 0.13.0.  *Missing part* (false, see
+`legacy_upgrade_strands_cw20`): a pre-0.12 store has no allow list (any cw20 token could be sent) and the
+v1 → v2 conversion of `migrate` writes `default_gas_limit: None`; when the migrate message sets no default
+either, the cw20 tokens already escrowed are neither allowed nor default-covered afterwards.  What holds:
+(1) a successful `migrate` that carries a default gas limit makes every token payable, and it stays
+payable on every later history; (2) from any state (any stored version) in which the tokens of the books
+are payable they remain so (`in_channel_payable_inv`). -/
+theorem redeemable_after_upgrade_partial {w w' : World} {blk : Block} {g : Nat} {o : Outcome}
+    (h : w.exec blk (.migrate (some g)) = .ok (w', o)) (ops : List (Block × Op)) (t : Addr) :
+    Payable (run w' ops).st t ∧
+    checkGasLimit (run w' ops).st (.cw20 t) true = .ok (expectedGas (run w' ops).st (.cw20 t)) := by
+  have hp := run_payable w' ops (migrate_default_payable (exec_migrate h) t)
+  exact ⟨hp, (payable_iff_gas _ _).mp hp⟩
+
+/-! ### The upgrade path from the pre-allow-list layout strands cw20 tokens (counterexample) -/
+
+/-- A contract stored by release 0.11.1 (`gov_contract` inside the config, no `ADMIN` item, no allow list):
+one channel; 10 T1 booked (acknowledged transfers), 25 T1 held — 15 T1 sent by alice are still in flight. -/
+def wLeg : World :=
+  { st := { config := ⟨3600, none⟩, v1gov := some "gov", admin := none, allow := [], channels := ["channel-0"],
+            chan := [(("channel-0", .cw20 "T1"), ⟨10, 10⟩)], versionName := CONTRACT_NAME, version := ⟨0, 11, 1, none⟩ },
+    self := "ics20", tokens := ["T1"], faulty := [], bank := [], tok := [(("T1", "ics20"), 25)] }
+
+/-- the in-flight packet of the old code -/
+def pLeg : Packet := ⟨15, .cw20 "T1", "remote-bob", "alice", none⟩
+/-- an honest redemption of 10 T1 vouchers -/
+def rLeg : PacketIn := ⟨"transfer", "channel-10", "channel-0", some 10, some ("transfer", "channel-10", .cw20 "T1"), "alice", "remote-bob"⟩
+
+/-- **C18, legacy_upgrade_strands_cw20** (machine-checked counterexample to "tokens already in a channel
+remain redeemable" on the upgrade path).  Start: the 0.11.1 state `wLeg`.  `migrate` with
+`default_gas_limit: None` succeeds: admin := "gov", books reconciled to 25 T1 outstanding, version 2.0.0,
+allow list empty, no default.  Then
+1. `InChannelPayable` fails: `check_gas_limit` refuses T1 (`notallowed`) although 25 T1 are outstanding;
+2. an honest redemption of T1 vouchers is answered with an error acknowledgement, nothing is paid;
+3. the timeout and the error acknowledgement of the in-flight packet *abort* (`on_packet_failure` runs
+   the gas check after reducing the balance; the error rolls the transaction back), so the relayer can
+   never get them processed and alice's 15 T1 stay in escrow;
+4. only governance can repair it: after `Allow{T1}` by the installed admin (or a second `migrate` carrying
+   a default gas limit) the same timeout is processed and alice is refunded. -/
+theorem legacy_upgrade_strands_cw20 :
+    (wLeg.exec b0 (.migrate none)).isOk = true ∧
+    (run wLeg [(b0, .migrate none)]).st.chan = [(("channel-0", .cw20 "T1"), ⟨25, 25⟩)] ∧
+    (run wLeg [(b0, .migrate none)]).st.admin = some "gov" ∧
+    (run wLeg [(b0, .migrate none)]).st.version = CONTRACT_VERSION ∧
+    (checkGasLimit (run wLeg [(b0, .migrate none)]).st (.cw20 "T1") true).tag = "notallowed" ∧
+    ackAndGas ((run wLeg [(b0, .migrate none)]).exec b0 (.recv rLeg true true false)) = some (some .error, none) ∧
+    ((run wLeg [(b0, .migrate none)]).exec b0 (.timeout "channel-0" (some pLeg) true true false)).isOk = false ∧
+    ((run wLeg [(b0, .migrate none)]).exec b0 (.ack "channel-0" (some pLeg) (some false) true true false)).isOk = false ∧
+    (run wLeg [(b0, .migrate none), (b0, .timeout "channel-0" (some pLeg) true true false)]).tokBal "T1" "alice" = 0 ∧
+    (run wLeg [(b0, .migrate none), (b0, .allow "gov" ⟨true, "T1"⟩ none),
+               (b0, .timeout "channel-0" (some pLeg) true true false)]).tokBal "T1" "alice" = 15 ∧
+    (run wLeg [(b0, .migrate none), (b0, .migrate (some 5000)),
+               (b0, .timeout "channel-0" (some pLeg) true true false)]).tokBal "T1" "alice" = 15 := by
+  decide
+
+/-- … and therefore the invariant fails after that migration. -/
+theorem legacy_upgrade_not_payable : ¬ InChannelPayable (run wLeg [(b0, .migrate none)]).st := by
+  intro h
+  have hp := h "channel-0" "T1" (by decide)
+  have := congrArg Res.isOk ((payable_iff_gas _ _).mp hp)
+  revert this; decide
+
+/-- with a default gas limit in the migrate message the same upgrade is fine
+(`redeemable_after_upgrade_partial` applies) -/
+example : (wLeg.exec b0 (.migrate (some 5000))).isOk = true ∧
+    (run wLeg [(b0, .migrate (some 5000)), (b0, .timeout "channel-0" (some pLeg) true true false)]).tokBal "T1" "alice" = 15 := by
+  decide
+
+/-- `in_channel_payable` is not vacuous: a fresh contract without default, T1 allow-listed, 40 T1 escrowed -/
+example : ∃ s, instantiate ⟨3600, ⟨true, "gov"⟩, [(⟨true, "T1"⟩, some 500)], none⟩ = .ok s ∧
+    0 < outstanding (run { w0 with st := s } [(b0, .connect "channel-0" ICS20_VERSION none false {}),
+      (b0, .sendCw20 "alice" "T1" 40 (some ⟨"channel-0", "bob", none, none⟩))]).st "channel-0" (.cw20 "T1") :=
+  ⟨_, rfl, by decide⟩
+
+/-! ## Transaction-level payout gas, monotone limits, strangers, the exact effect of `Allow` -/
+
+/-- **C18, payout_gas_limit at transaction level** (clause "each payout is issued with the token's
+current limit, else the default", composed through `World.exec`): whatever the transaction — an incoming
+packet, an error acknowledgement, a timeout — if its outcome carries a payout / refund sub-message, that
+sub-message has the gas limit `expectedGas` of its denomination in the state *before* the transaction
+(the token's allow-list entry, else the default; none for native coins) and is `reply_on_error` with one
+of the two reply ids; no other kind of transaction emits a sub-message. -/
+theorem payout_gas_limit_tx {w w' : World} {blk : Block} {op : Op} {o : Outcome} {sub : SubMsg}
+    (h : w.exec blk op = .ok (w', o)) (hs : o.sub = some sub) :
+    sub.gas = expectedGas w.st sub.denom ∧ (sub.replyId = RECEIVE_ID ∨ sub.replyId = ACK_FAILURE_ID) ∧
+    ((∃ p rv tv f, op = .recv p rv tv f) ∨ (∃ chan data sv tv f, op = .ack chan data (some false) sv tv f) ∨
+     (∃ chan data sv tv f, op = .timeout chan data sv tv f)) := by
+  cases op with
+  | connect id v cv ord peer =>
+    have := (exec_plain_frame h (Or.inl ⟨id, v, cv, ord, peer, rfl⟩)).2.2.2.2.2.2.2.1
+    rw [this] at hs; cases hs
+  | chanOpen v cv ord => obtain ⟨_, rfl⟩ := exec_chanOpen h; cases hs
+  | chanClose id => exact (exec_chanClose h).elim
+  | allow snd c gg =>
+    have := (exec_plain_frame h (Or.inr (Or.inl ⟨snd, c, gg, rfl⟩))).2.2.2.2.2.2.2.1
+    rw [this] at hs; cases hs
+  | updateAdmin snd a =>
+    have := (exec_plain_frame h (Or.inr (Or.inr ⟨snd, a, rfl⟩))).2.2.2.2.2.2.2.1
+    rw [this] at hs; cases hs
+  | migrate gg =>
+    have := (exec_migrate_frame h).2.2.2.2.2.2.1
+    rw [this] at hs; cases hs
+  | transferNative snd funds msg =>
+    obtain ⟨d, amt, w1, s, out, _, _, _, _, _, rfl⟩ := exec_transferNative_spec h; cases hs
+  | sendCw20 snd token amt msg =>
+    obtain ⟨w1, m, s, out, _, _, _, _, _, _, rfl⟩ := exec_sendCw20_spec h; cases hs
+  | hook snd funds sender amt msg =>
+    obtain ⟨m, s, out, _, _, _, _, rfl⟩ := exec_hook_spec h; cases hs
+  | recv p rv tv f =>
+    rcases exec_recv_cases h with ⟨_, _, _, hn⟩ | ⟨s1, sub', hd, hsub, _⟩
+    · rw [hn] at hs; cases hs
+    · rw [hsub] at hs; cases hs
+      obtain ⟨amt, d, ch, _, _, _, _, _, _, hsd, hid, g, hg, hgas⟩ := doReceive_spec hd
+      refine ⟨?_, Or.inl hid, Or.inl ⟨p, rv, tv, f, rfl⟩⟩
+      rw [hgas, hsd]; exact (checkGasLimit_spec hg).1
+  | ack chan data ackOk sv tv f =>
+    rcases exec_ack_cases h with ⟨_, _, _, hn⟩ | ⟨rfl, s1, sub', hf, hsub, _⟩
+    · rw [hn] at hs; cases hs
+    · rw [hsub] at hs; cases hs
+      obtain ⟨h1, h2⟩ := onPacketFailure_gas hf
+      exact ⟨h1, Or.inr h2, Or.inr (Or.inl ⟨chan, data, sv, tv, f, rfl⟩)⟩
+  | timeout chan data sv tv f =>
+    obtain ⟨s1, sub', hf, hsub, _⟩ := exec_timeout_cases h
+    rw [hsub] at hs; cases hs
+    obtain ⟨h1, h2⟩ := onPacketFailure_gas hf
+    exact ⟨h1, Or.inr h2, Or.inr (Or.inr ⟨chan, data, sv, tv, f, rfl⟩)⟩
+
+/-- **C18, payout_gas_monotone** (clause "its limit is never lowered", read off the payouts): for a token
+on the allow list, the gas limit attached to its payouts never shrinks along any history (`some a ⊑
+some b` for `a ≤ b`, everything `⊑` unlimited).  (For a token covered only by the default this is
+legitimately not so: `migrate` may set a smaller default.) -/
+theorem payout_gas_monotone (w : World) (ops : List (Block × Op)) {t : Addr} {g : Option Nat}
+    (h : w.st.allow.get? t = some g) :
+    gasLe (expectedGas w.st (.cw20 t)) (expectedGas (run w ops).st (.cw20 t)) := by
+  obtain ⟨g', hg', hle⟩ := allow_monotone w ops t g h
+  simp only [expectedGas, h, hg']
+  exact hle
+
+/-- **C18, strangers and former governance are complete no-ops** (clauses 1 and 2, "histories by admin,
+former admin, strangers"): an `Allow` or `UpdateAdmin` sent by anybody who is not the current admin
+leaves the whole world unchanged — not only the allow list. -/
+theorem stranger_noop (w : World) (blk : Block) (snd : Addr) (h : w.st.admin ≠ some snd) :
+    (∀ c g, w.step blk (.allow snd c g) = w) ∧ (∀ a, w.step blk (.updateAdmin snd a) = w) := by
+  constructor
+  · intro c g
+    unfold World.step
+    cases hx : w.exec blk (.allow snd c g) with
+    | error e => rfl
+    | ok r => exact absurd (execAllow_spec (exec_allow hx)).1 h
+  · intro a
+    unfold World.step
+    cases hx : w.exec blk (.updateAdmin snd a) with
+    | error e => rfl
+    | ok r => exact absurd (execUpdateAdmin_spec (exec_updateAdmin hx)).1 h
+
+/-- After governance was handed over, the former admin is a stranger. -/
+theorem former_admin_noop {w : World} {blk : Block} {old : Addr} {a : AddrArg} {w' : World} {o : Outcome}
+    (h : w.exec blk (.updateAdmin old a) = .ok (w', o)) (hne : a.text ≠ old) (blk' : Block) :
+    (∀ c g, w'.step blk' (.allow old c g) = w') ∧ (∀ a', w'.step blk' (.updateAdmin old a') = w') := by
+  have := (execUpdateAdmin_spec (exec_updateAdmin h)).2.2.1
+  apply stranger_noop
+  rw [this]; intro e; cases e; exact hne rfl
+
+/-- **C18, allow_effect** (what an accepted `Allow` changes): it was sent by the admin with a valid
+address; exactly the entry of that address changes, to the submitted limit, which is at least as loose
+as the old one (if there was one); every other entry and the rest of the governance state are untouched. -/
+theorem allow_effect {w w' : World} {blk : Block} {snd : Addr} {c : AddrArg} {g : Option Nat} {o : Outcome}
+    (h : w.exec blk (.allow snd c g) = .ok (w', o)) :
+    w.st.admin = some snd ∧ c.valid = true ∧ w'.st.allow.get? c.text = some g ∧
+    (∀ old, w.st.allow.get? c.text = some old → gasLe old g) ∧
+    (∀ t, t ≠ c.text → w'.st.allow.get? t = w.st.allow.get? t) ∧
+    w'.st.admin = w.st.admin ∧ w'.st.config = w.st.config := by
+  obtain ⟨h1, h2, h3, h4, h5, h6, _⟩ := execAllow_spec (exec_allow h)
+  refine ⟨h1, h2, by rw [h3]; simp, h4, ?_, h5, h6⟩
+  intro t ht
+  rw [h3, AMap.get?_set_ne _ _ _ _ (Ne.symm ht)]
+
+/-- on `w0`: "mallory" is a stranger; T1's payouts carry 500 now and at least 500 after any history -/
+example : w0.st.admin ≠ some "mallory" := by decide
+example : w0.st.allow.get? "T1" = some (some 500) := by decide
+example : expectedGas (run w0 [(b0, .allow "gov" ⟨true, "T1"⟩ (some 700))]).st (.cw20 "T1") = some 700 := by decide
 
 end CwPlus.Props.C18
